@@ -81,6 +81,12 @@ def root_cause(seg, idx):
                         a["st"] = "superseded"
             if e["k"] in ("dial_failure", "open_failure") and e["cid"] in att:
                 att[e["cid"]]["st"] = "failed"
+        if s["a"] in ("established", "in_est") and any(c["c"] == "accept" and c.get("ok") is False for c in ev["calls"]):
+            # the accept() call itself failed: same silent rollback as a failed accept future
+            cancelled = {c["cid"] for c in ev["calls"] if c["c"] == "cancel"}
+            for c, a in att.items():
+                if (c == s["c"] and a["st"] == "open") or (c in cancelled and a["st"] in ("open", "cancelled")):
+                    a["how"] = "accept-rolled-back-silently"
         if s["a"] == "accept_err":
             for c, a in att.items():
                 if (c == s["c"] and a["st"] == "open") or (a["st"] == "cancelled" and a["by"] == s["c"]):
